@@ -111,6 +111,7 @@ int strIn(const std::string &s) {
     return sum;
 }
 void strOut(std::string &s, int n) { Guard g; s = pattern(n); }
+void strPtrOut(std::string *s, int n) { Guard g; *s = pattern(n); }
 void strInout(std::string &s) { Guard g; s = s + "+x"; }
 int strPtrIn(const std::string *s) { Guard g; return strIn(*s) + 7; }
 int strValIn(std::string s) { Guard g; return strIn(s) + 9; }
@@ -132,6 +133,7 @@ int vecSum(const std::vector<int> &v) { Guard g; int s = 0; for (size_t i = 0; i
 void vecIota(std::vector<int> &v) { Guard g; v.clear(); for (int i = 0; i < 5; i++) v.push_back(i + 1); }
 void vecInc(std::vector<int> &v) { Guard g; for (size_t i = 0; i < v.size(); i++) v[i] += 1; }
 void vecAlloc(std::vector<int> &v, int n) { Guard g; v.clear(); for (int i = 0; i < n; i++) v.push_back(10 * i); }
+void vecInoutAlloc(std::vector<int> &v) { Guard g; size_t n = v.size(); for (size_t i = 0; i < n; i++) v.push_back(v[i] + 100); }
 std::vector<int> vecRet(int n) { Guard g; std::vector<int> v; for (int i = 0; i < n; i++) v.push_back(i * i); return v; }
 int vecStrCount(const std::vector<std::string> &v) { Guard g; int s = 0; for (size_t i = 0; i < v.size(); i++) s += static_cast<int>(v[i].size()) + 100; return s; }
 
